@@ -115,8 +115,8 @@ def raw_values(kind, k, seed, scale=None):
     raise ValueError(kind)
 
 
-def materialize(kind, cells, nan_cell, seed, target="binary", feature="f", classes=None, scale=None):
-    vals = raw_values(kind, len(cells), seed, scale)
+def materialize(kind, cells, nan_cell, seed, target="binary", feature="f", classes=None, scale=None, values=None, xdtype=None):
+    vals = list(values) if values is not None else raw_values(kind, len(cells), seed, scale)
     xs, ys = [], []
     for v, c in zip(vals, cells):
         t = cell_targets(c, target)
@@ -126,7 +126,9 @@ def materialize(kind, cells, nan_cell, seed, target="binary", feature="f", class
         t = cell_targets(nan_cell, target)
         xs += [np.nan] * len(t)
         ys += t
-    if kind == "QNT":
+    if xdtype is not None:
+        col = pd.Series(xs, dtype=xdtype)
+    elif kind == "QNT":
         col = pd.Series(xs, dtype=float)
     else:
         col = pd.Series(xs, dtype=object)
@@ -139,7 +141,8 @@ def materialize(kind, cells, nan_cell, seed, target="binary", feature="f", class
 
 def feature_kwargs(kind, vals, feature="f"):
     if kind == "ORD":
-        return dict(ordinal_features=[feature], values_orders={feature: list(vals)})
+        # the ranking of an ordinal feature is given as strings (documented usage), also for numeric columns
+        return dict(ordinal_features=[feature], values_orders={feature: [v if isinstance(v, str) else str_form(v) for v in vals]})
     if kind in ("CAT", "NUMCAT"):
         return dict(qualitative_features=[feature])
     if kind == "QNT":
@@ -208,13 +211,13 @@ def build_frames(case):
     target = target_of(case)
     cells = [tuple(c) for c in case["cells"]]
     nan = tuple(case["nan"]) if case.get("nan") is not None else None
-    X, y, vals = materialize(case["kind"], cells, nan, case.get("seed", 0), target, classes=case.get("classes"), scale=case.get("scale"))
+    X, y, vals = materialize(case["kind"], cells, nan, case.get("seed", 0), target, classes=case.get("classes"), scale=case.get("scale"), values=case.get("values"), xdtype=case.get("xdtype"))
     Xd = yd = None
     dev = case.get("dev")
     if dev is not None:
         dcells = [tuple(c) for c in dev["cells"]]
         dnan = tuple(dev["nan"]) if dev.get("nan") is not None else None
-        Xd, yd, _ = materialize(case["kind"], dcells, dnan, case.get("seed", 0), target, classes=case.get("classes"), scale=case.get("scale"))
+        Xd, yd, _ = materialize(case["kind"], dcells, dnan, case.get("seed", 0), target, classes=case.get("classes"), scale=case.get("scale"), values=case.get("values"), xdtype=case.get("xdtype"))
     return X, y, Xd, yd, vals
 
 
